@@ -90,6 +90,7 @@ func runOne(t *testing.T, profile string, seed uint64, tape *simrt.Tape, trace b
 	synctest.Test(t, func(t *testing.T) {
 		s := simrt.New(tape, simrt.Options{TraceFull: trace, MaxDecisions: 1 << 30, MaxVirtual: 30 * time.Minute})
 		s.Verbose = os.Getenv("VSIM_VERBOSE") != ""
+		curSim = s
 		res = r(s)
 		res.Seed = seed
 		res.Stats = s.Stats
